@@ -222,6 +222,17 @@ func init() {
 		dt("sync-token", "http://example.com/ns/sync/1234")))
 	addDoc("locked", multistatus(
 		d("response", dt("href", "/dir/locked"), status(423), d("error", d("lock-token-submitted")), dt("responsedescription", "locked"))))
+	// one status (and DAV:error, description) for several hrefs: RFC 4918 14.24 (href*, status)
+	addDoc("multihref", multistatus(
+		d("response", dt("href", "/dir/a.txt"), dt("href", "/dir/b.txt"), status(423), d("error", d("lock-token-submitted")), dt("responsedescription", "both locked")),
+		response("/dir/c.txt", propstat(200, fileProps("7", "e1")...))))
+	// sync-collection members reported 404 with a description, one of them for two hrefs
+	addDoc("syncdesc", multistatus(
+		response("/card/me/friends/1.vcf", propstat(200, dt("getlastmodified", httpDate), dt("getetag", `"v1"`))),
+		d("response", dt("href", "/card/me/friends/gone1.vcf"), status(404), dt("responsedescription", "Not Found")),
+		d("response", dt("href", "/card/me/friends/gone2.vcf"), dt("href", "/card/me/friends/gone3.vcf"), status(404), dt("responsedescription", "both gone")),
+		d("response", dt("href", "/card/me/friends/gone4.vcf"), status(404), d("error", d("no-such-resource")), dt("responsedescription", "gone")),
+		dt("sync-token", "http://example.com/ns/sync/1235")))
 	addDoc("daverror", d("error", d("need-privileges", d("resource", dt("href", "/dir/a.txt"), d("privilege", d("read"))))))
 	addDoc("calerror", d("error", el(nsCal, "valid-calendar-data"), d("no-conflicting-lock")))
 }
